@@ -2,7 +2,8 @@
 """Re-runs every sdfxlint check on a scratch copy of /repo with each filed mutant applied and
 rewrites the detected_by section of its meta.json. Usage: tools/refresh_seeded.py [dir ...]"""
 import json, os, re, subprocess, sys, shutil, tempfile, glob, concurrent.futures as cf
-PROPS = subprocess.run("/verif/bin/sdfxlint list", shell=True, capture_output=True, text=True).stdout.split()
+BIN = os.environ.get("BIN", "/verif/bin/sdfxlint")
+PROPS = subprocess.run(BIN + " list", shell=True, capture_output=True, text=True).stdout.split()
 def one(d):
     meta = json.load(open(f"{d}/meta.json"))
     tmp = tempfile.mkdtemp(prefix="refresh.", dir="/tmp")
@@ -10,7 +11,7 @@ def one(d):
         subprocess.run(f"rsync -a --exclude .git /repo/ {tmp}/ && cd {tmp} && git apply --whitespace=nowarn {d}/patch.diff", shell=True, check=True, capture_output=True)
         caught = {}
         for p in PROPS:
-            r = subprocess.run(f"VERIF_NOEVIDENCE=1 /verif/bin/sdfxlint check -p {p} -repo {tmp}", shell=True, capture_output=True, text=True, cwd="/verif", timeout=600)
+            r = subprocess.run(f"VERIF_NOEVIDENCE=1 {BIN} check -p {p} -repo {tmp}", shell=True, capture_output=True, text=True, cwd="/verif", timeout=600)
             if r.returncode != 0:
                 rules = sorted(set(re.findall(r"rule=(\S+) construct=(\S+)", r.stdout)))
                 caught[p] = {"exit": r.returncode, "rules": [f"{a} {b}" for a, b in rules][:8]}
